@@ -7,7 +7,8 @@ Literal mirror of
   `u32::try_from`, prelude (`put_u32` total, `put_u32` headers length, `put_u32` CRC of those 8 bytes),
   per header `u8::try_from(name.len())`, `u16::try_from(value.len())`, `put_u8 len, name, put_u8 7,
   put_u16 len, value`, payload, `put_u32` CRC of everything written so far;
-* the five `into_message` mappings and `request_level_error`;
+* the five `into_message` mappings and `request_level_error` (since f8c01e3 with `truncate_header_value`:
+  message and custom code are cut to at most 65 535 bytes at a `char` boundary before they become header values);
 * `xml_payload` for `Stats` / `Progress` (`Serializer::decl` + `content(root, …)` with the three optional
   `i64` members in the order of `xml/generated.rs`: BytesProcessed, BytesReturned, BytesScanned);
 * `event_into_bytes` and the `Wrapper` stream: `Wrapper::poll_next` is stateless — every item of the
@@ -203,9 +204,30 @@ def intoMessage : Event → Message
   | .stats d =>
     ⟨[hdr hEventType vStats, hdr hContentType vTextXml, hdr hMessageType vEvent], d.map (xmlPayload vStats)⟩
 
-/-- `request_level_error` -/
+/-- `str::is_char_boundary(i)`: `0` and `len` are boundaries, an index beyond `len` is not, otherwise the
+    byte at `i` must not be a continuation byte (`(b as i8) >= -0x40`, i.e. not `0b10xxxxxx`) -/
+def isCharBoundary (s : Bytes) (i : Nat) : Bool :=
+  if i = 0 then true
+  else if s.length ≤ i then i == s.length
+  else match s[i]? with
+    | some b => b.toNat < 128 || 192 ≤ b.toNat
+    | none => false
+
+/-- `while !s.is_char_boundary(end) { end -= 1; }` (index 0 is always a boundary) -/
+def truncEnd (s : Bytes) : Nat → Nat
+  | 0 => 0
+  | e + 1 => if isCharBoundary s (e + 1) then e + 1 else truncEnd s e
+
+/-- `truncate_header_value`: `&s[..end]` with `end` the largest boundary `≤ min(len, 65535)` -/
+def truncateHeaderValue (s : Bytes) : Bytes := s.take (truncEnd s (min s.length 65535))
+
+/-- `request_level_error`. A static (known) code is used as it is; every static code is far shorter than
+    65 535 bytes, on which `truncateHeaderValue` is the identity (`truncateHeaderValue_eq_self`), so the model
+    applies it to both kinds of code. -/
 def requestLevelError (e : S3Err) : Message :=
-  ⟨[hdr hErrorCode e.code, hdr hErrorMessage (e.message.getD []), hdr hMessageType vError], none⟩
+  ⟨[hdr hErrorCode (truncateHeaderValue e.code),
+    hdr hErrorMessage ((e.message.map truncateHeaderValue).getD []),
+    hdr hMessageType vError], none⟩
 
 /-- one item of the backend's stream: `S3Result<SelectObjectContentEvent>` -/
 abbrev Item := Except S3Err Event
